@@ -330,13 +330,16 @@ def dotdot : Nat → Str → Nat → Str
     | some p =>
       if p + 3 < s.length ∧ s[p + 3]? ≠ some '/' then dotdot f s (p + 1)
       else
-        let pos1 := match rfindChar '/' s (p - 1) with
+        -- `rfind('/', pos - 1U)`: for pos = 0 the start wraps to npos (search from the end)
+        let pos1 := match rfindChar '/' s (if p = 0 then s.length else p - 1) with
           | none => 0
           | some q => q + 1
-        let prev := (s.drop pos1).take (p - pos1)
+        -- `substr(pos1, pos - pos1)` / `erase(pos1, pos - pos1 + 4)` in unsigned arithmetic
+        let prev := if pos1 ≤ p then (s.drop pos1).take (p - pos1) else s.drop pos1
         if prev = "..".toList then dotdot f s (p + 1)
         else
-          let s' := eraseAt s pos1 (p - pos1 + 4)
+          let cnt := if pos1 ≤ p then p - pos1 + 4 else if pos1 - p ≤ 4 then 4 - (pos1 - p) else s.length
+          let s' := eraseAt s pos1 cnt
           let s'' := if s'.isEmpty then ['.'] else s'
           dotdot f s'' (if pos1 = 0 then 1 else pos1 - 1)
 
